@@ -499,6 +499,18 @@ func (v *UnixVolume) Untrash(loc string) (err error) {
 	for _, f := range files {
 		if strings.HasPrefix(f.Name(), prefix) {
 			foundTrash = true
+			// Update the timestamp before renaming: the
+			// untrashed file may replace a copy that was
+			// written or touched just now, and must not
+			// expose a stale timestamp that lets Trash()
+			// remove the block before BlobSigningTTL has
+			// passed.
+			ts := time.Now()
+			v.os.stats.TickOps("utimes")
+			v.os.stats.Tick(&v.os.stats.UtimesOps)
+			if err = os.Chtimes(v.blockPath(f.Name()), ts, ts); err != nil {
+				continue
+			}
 			err = v.os.Rename(v.blockPath(f.Name()), v.blockPath(loc))
 			if err == nil {
 				break
